@@ -122,7 +122,10 @@ pub fn gen(a: &Args) {
     'outer: for round in 0..1000 {
         let n = [3i64, 12, 40][round % 3];
         let len = [4usize, 40][round % 2];
-        for (name, m) in progs::all(n, len) {
+        // first the host API (Vm::insert_value through the native host_table), then the script programs
+        let mut list = if round == 0 { progs::host_api() } else { vec![] };
+        list.extend(progs::all(n, len));
+        for (name, m) in list {
             pid += 1;
             sched_cases(&mut rng, &mut w, pid, &name, m, thorough);
             if w.len() >= a.n { break 'outer; }
